@@ -6,6 +6,12 @@
 //	  and trickle files with protobuf leaves (W=2, n in {3,8,13} | 1..20); operations: AsBytes,
 //	  streamed reads with buffers {1,5,4096}, the "unixfs-preload" reifier,
 //	  file.NewUnixFSFileWithPreload;
+//	hand-built files (handbuilt_test.go): interior nodes with dag-pb children, including empty
+//	  ones (recorded block size 0) in middle / last / nested positions; 32 fixed shapes with CIDv1
+//	  and CIDv0 links + 60 | 2000 random shapes of depth <= 3; same operations plus io.ReadAll;
+//	  all of these as "file:hand=..."; 20 shapes (+3 with CIDv0 links) with a leading-empty child as
+//	  "file:leading-empty=..." (known finding: such a child is never requested; nothing else can
+//	  fail under that name);
 //	HAMTs: fanouts {8,256} | {8,16,64,256,1024} over 7 colliding + 150 | 2000 random names;
 //	  operations: full MapIterator pass, Length(), the preload reifier;
 //	paths: root(plain)/h(HAMT)/<name> resolved with UnixFSPathSelector for every 5th | every name:
@@ -135,10 +141,12 @@ func short(xs []string) string {
 func check(r *vp.Run, id string, st *vp.Store, root datamodel.Link, want []string, ops []op) {
 	want = dedup(want)
 	for _, o := range ops {
-		for rep := 0; rep < 3; rep++ {
-			cid := fmt.Sprintf("%s,%s", id, o.name)
+		cid := fmt.Sprintf("%s,%s", id, o.name)
+		// one VP-FAIL line per failing case: the first failing run is reported, later runs are skipped
+		for rep, ok := 0, true; rep < 3 && ok; rep++ {
 			r.Eval(fmt.Sprintf("%s,rep=%d", cid, rep))
 			r.Guard(cid, func() {
+				ok = false
 				ls := st.LS()
 				unixfsnode.AddUnixFSReificationToLinkSystem(ls)
 				st.ResetLog()
@@ -153,7 +161,9 @@ func check(r *vp.Run, id string, st *vp.Store, root datamodel.Link, want []strin
 				}
 				if got := st.FirstReads(); strings.Join(got, " ") != strings.Join(want, " ") {
 					r.Fail(cid, "run %d: first requests [%s], depth-first link order is [%s]", rep, short(got), short(want))
+					return
 				}
+				ok = true
 			})
 		}
 	}
@@ -207,6 +217,8 @@ func TestBounded(t *testing.T) {
 			check(r, fmt.Sprintf("file:boxo-%s,n=%d", layout, n), st, root, order, fileOps)
 		}
 	}
+
+	handBuilt(t, r)
 
 	builder.DefaultLinksPerBlock = 2
 	rng := vp.Rng(20)
